@@ -130,6 +130,8 @@ ALLOWED = {
     'mkscope': {'tags.cap': 'map is initialised lazily when len is 0', 'tags.keys': 'idem', 'tags.vals': 'idem', 'decls.cap': 'idem', 'decls.keys': 'idem', 'decls.vals': 'idem'},
     'mkintconst': {'id': 'constants have no id', 'u.name': OTHER_ARMS, 'u.f': OTHER_ARMS},
     'mkexpr': {'op': 'set by the creators of the operator kinds that read it', 'u.': 'the arm of the expression kind is filled by the creator'},
+    'mkglobal': {'u.i': OTHER_ARMS, 'u.f': OTHER_ARMS},
+    'mkglobal(asm)': {'u.i': OTHER_ARMS, 'u.f': OTHER_ARMS},
 }
 
 
@@ -146,6 +148,13 @@ def fields_of(prog, it, rec, prefix=()):
             else:
                 out.append(p)
     return out
+
+
+def mkdecl_for_global(prog, w, it, asm):
+    d = Obj('decl', 'heap')
+    d.f.update({('name',): Ptr(it.mkstr(list(b'x'), 'x'), (0,)), ('kind',): ev(prog, 'DECLOBJECT'), ('linkage',): ev(prog, 'LINKEXTERN'), ('type',): w.t('int'), ('qual',): 0,
+                ('asmname',): Ptr(it.mkstr(list(b'lbl'), 'lbl'), (0,)) if asm else None, ('u', 'obj', 'storage'): ev(prog, 'SDSTATIC'), ('u', 'obj', 'align'): 4})
+    return Ptr(d, ())
 
 
 def fields_read(prog):
@@ -177,9 +186,11 @@ def rule_constructors(chk, prog, tier):
         ('mkscope', lambda w, it: [Ptr(it.gobj('filescope'), ())], 'scope'),
         ('mkintconst', lambda w, it: [5], 'value'),
         ('mkexpr', lambda w, it: [ev(prog, 'EXPRCONST'), w.t('int'), None], 'expr'),
+        ('mkglobal', lambda w, it: [mkdecl_for_global(prog, w, it, False)], 'value'),
+        ('mkglobal(asm)', lambda w, it: [mkdecl_for_global(prog, w, it, True)], 'value'),
     ]
     for fname, argsf, recname in cons:
-        fn = prog.func(fname)
+        fn = prog.func(fname.split('(')[0])
         if fn is None:
             raise AnalysisBroken('constructor %s not found' % fname)
         rec = prog.recbyname.get(recname)
